@@ -32,6 +32,38 @@ RULE = ("forecasts on the grid k/8 in [0,1] and thresholds drawn from the same g
 ASSUMPTIONS = ["the rank statistic (Mann-Whitney) used as oracle is computed by the harness with exact fractions, independently of model and implementation"]
 
 
+def model_ok(ctx):
+    b = getattr(ctx, "build", None) or {}
+    return bool(b.get("driver_ok")) and not ({"C08", "C09", "C14"} & set(b.get("excluded_models") or []))
+
+
+def expected_keep(all_dims, rd, pd):
+    """dimensions a valid reduce_dims / preserve_dims request keeps (the documented rule, restated independently)"""
+    if pd is not None:
+        return set(all_dims) if pd == "all" else ({pd} if isinstance(pd, str) else set(pd))
+    if rd is None or rd == "all":
+        return set()
+    return set(all_dims) - ({rd} if isinstance(rd, str) else set(rd))
+
+
+def ieee_ratio(a, b):
+    if b == 0:
+        return float("nan") if a == 0 else (float("inf") if a > 0 else float("-inf"))
+    return a / b
+
+
+def spec_point(cells, t, k):
+    """weighted fraction of the valid cells with observation k whose forecast is >= t (exact)"""
+    num = den = Fraction(0)
+    for f, o, w in cells:
+        if math.isnan(f) or math.isnan(o) or math.isnan(w) or o != k:
+            continue
+        den += Fraction(w)
+        if Fraction(f) >= Fraction(t):
+            num += Fraction(w)
+    return ieee_ratio(num, den)
+
+
 def roc():
     from scores.probability import roc_curve_data
     return roc_curve_data
@@ -64,8 +96,17 @@ def gen_case(ctx):
     if bad == "thrdim" and "threshold" not in sizes:
         sizes["threshold"] = 2
     grid = [k / 8 for k in range(9)]
-    fcst = gens.rand_da(rng, sizes, values=grid + ([1.5] if bad == "fcst_range" else []) + ([-0.25] if bad == "fcst_neg" else []),
+    near = rng.random() < 0.35        # forecasts a hair below / above a grid value: not ties, must not be treated as ties
+    if near:
+        grid = grid + [0.7 - 0.4, 0.1 + 0.2, 0.5 - 3e-9, 0.25 - 5e-10, 0.75 + 2e-9, 0.375 - 1e-12]
+    fdims = gens.sub_dims(rng, sizes, p_drop=0.2, keep_at_least=1) if bad != "thrdim" else list(sizes)   # obs may have a dim fcst lacks
+    fcst = gens.rand_da(rng, sizes, dims=fdims, values=grid + ([1.5] if bad == "fcst_range" else []) + ([-0.25] if bad == "fcst_neg" else []),
                         nan_p=0.15 if rng.random() < 0.4 else 0.0)
+    r = rng.random()
+    if bad is None and not near and r < 0.12:      # integer forecasts (0 / 1) against fractional thresholds
+        fcst = gens.rand_da(rng, sizes, dims=fdims, values=[0, 1]).astype("int64")
+    elif bad is None and not near and r < 0.25:    # single precision forecasts (k/8 is exact in float32)
+        fcst = fcst.astype("float32")
     odims = gens.sub_dims(rng, sizes, p_drop=0.15)
     obs = gens.rand_da(rng, sizes, dims=odims, values=[0.0, 1.0] + ([2.0, 0.5] if bad == "obs" else []), nan_p=0.15 if rng.random() < 0.4 else 0.0)
     w = None
@@ -77,7 +118,9 @@ def gen_case(ctx):
             wd = wd + ["z"]
         w = gens.rand_da(rng, wsizes, dims=wd, lo=0, hi=3, nan_p=0.1 if rng.random() < 0.3 else 0.0)
     ts = rand_thresholds(rng, bad)
-    rd, pd = gens.rand_dimspec(rng, [d for d in sizes], allow_bad=True)
+    if near and bad is None:
+        ts = sorted(set(ts) | set(rng.sample([0.3, 0.5, 0.25, 0.75, 0.375, 0.5 + 1e-9, 0.3 - 1e-10], 3)))
+    rd, pd = gens.rand_dimspec(rng, sorted(set(fcst.dims) | set(obs.dims)), allow_bad=True)
     ca = rng.random() < 0.8
     return fcst, obs, ts, rd, pd, w, ca, bad
 
@@ -116,9 +159,15 @@ def mann_whitney(ev, ne):
     return s / (len(ev) * len(ne))
 
 
-def predicates(ctx, fcst, obs, ts, w, ds, desc):
+def predicates(ctx, fcst, obs, ts, w, ds, desc, use_model=True, rd=None, pd=None, valid_request=False):
     """property predicates on the implementation's output `ds`"""
     pod, pofd, auc = ds["POD"], ds["POFD"], ds["AUC"]
+    if valid_request:
+        exp_keep = expected_keep(set(fcst.dims) | set(obs.dims), rd, pd)
+        if set(auc.dims) != exp_keep or set(pod.dims) != exp_keep | {"threshold"} or set(pofd.dims) != exp_keep | {"threshold"}:
+            ctx.violation("the result does not keep exactly the requested dimensions (plus 'threshold' for POD / POFD)", desc,
+                          sorted(exp_keep), {"AUC": list(auc.dims), "POD": list(pod.dims), "POFD": list(pofd.dims)})
+            return
     keep = [d for d in auc.dims]
     labels = [list(auc[d].values) for d in keep]
     nonneg = w is None or bool((np.nan_to_num(np.asarray(w.values, float)) >= 0).all())
@@ -129,17 +178,27 @@ def predicates(ctx, fcst, obs, ts, w, ds, desc):
         p = np.asarray(pod.sel(sel).transpose("threshold").values, float)
         q = np.asarray(pofd.sel(sel).transpose("threshold").values, float)
         a = float(auc.sel(sel).values)
-        m = ctx.model("c14_roc_cells", enc_list([enc_list([enc_nums(c) for c in cells]), enc_nums(ts)]))
-        mpod, mpofd, spod, spofd = (core.dec_nums(x) for x in m[:4])
-        mauc = core.dec_num(m[4])
         c2 = dict(desc, cell=sel)
         finite_ts = all(math.isfinite(t) for t in ts)
-        if finite_ts and not (core.close_list(p, spod) and core.close_list(q, spofd)):
-            ctx.violation("ROC point differs from the weighted fraction of events / non-events with forecast >= t", c2,
-                          {"POD": spod, "POFD": spofd}, {"POD": p.tolist(), "POFD": q.tolist()})
-        if not (core.close_list(p, mpod) and core.close_list(q, mpofd) and core.close(a, mauc)):
-            ctx.tie_fail("list-level ROC model vs implementation", c2, {"POD": p.tolist(), "POFD": q.tolist(), "AUC": a},
-                         {"POD": mpod, "POFD": mpofd, "AUC": mauc})
+        if finite_ts:
+            spod, spofd = [spec_point(cells, t, 1) for t in ts], [spec_point(cells, t, 0) for t in ts]
+            if not (core.close_list(p, spod) and core.close_list(q, spofd)):
+                ctx.violation("ROC point differs from the weighted fraction of events / non-events with forecast >= t", c2,
+                              {"POD": spod, "POFD": spofd}, {"POD": p.tolist(), "POFD": q.tolist()})
+        # AUC is the (negated) trapezoid sum of exactly the returned points
+        with np.errstate(all="ignore"):
+            area = -float(sum((q[j + 1] - q[j]) * (p[j + 1] + p[j]) / 2.0 for j in range(len(ts) - 1))) if len(ts) > 1 else 0.0
+        if not ((math.isnan(area) and math.isnan(a)) or abs(area - a) <= 1e-12):
+            ctx.violation("AUC is not the trapezoid area under the returned (POFD, POD) points", c2, area, a)
+        if use_model:
+            m = ctx.model("c14_roc_cells", enc_list([enc_list([enc_nums(c) for c in cells]), enc_nums(ts)]))
+            mpod, mpofd, mspod, mspofd = (core.dec_nums(x) for x in m[:4])
+            mauc = core.dec_num(m[4])
+            if not (core.close_list(p, mpod) and core.close_list(q, mpofd) and core.close(a, mauc)):
+                ctx.tie_fail("list-level ROC model vs implementation", c2, {"POD": p.tolist(), "POFD": q.tolist(), "AUC": a},
+                             {"POD": mpod, "POFD": mpofd, "AUC": mauc})
+            if finite_ts and not (core.close_list([float(v) for v in spod], mspod) and core.close_list([float(v) for v in spofd], mspofd)):
+                ctx.tie_fail("proved specification vs the harness oracle", c2, {"POD": spod, "POFD": spofd}, {"POD": mspod, "POFD": mspofd})
         if nonneg:
             for name, v in (("POD", p), ("POFD", q)):
                 fin = v[~np.isnan(v)]
@@ -167,6 +226,10 @@ def manager_agreement(ctx, fcst, obs, ts, rd, pd, ds, desc):
             for name, meth in (("POD", "probability_of_detection"), ("POFD", "probability_of_false_detection")):
                 exp = getattr(b, meth)()
                 got = ds[name].isel(threshold=i, drop=True)
+                if set(exp.dims) != set(got.dims):
+                    ctx.violation(f"{name} keeps other dimensions than the contingency manager for the same request", dict(desc, threshold=t),
+                                  list(exp.dims), list(got.dims))
+                    return
                 if exp.dims:
                     exp = exp.sel({d: got[d] for d in got.dims}).transpose(*got.dims)
                 if not np.allclose(np.asarray(got.values, float), np.asarray(exp.values, float), rtol=1e-12, atol=0, equal_nan=True):
@@ -175,12 +238,20 @@ def manager_agreement(ctx, fcst, obs, ts, rd, pd, ds, desc):
     ctx.count("manager_agreement_checked")
 
 
-def mann_whitney_case(ctx):
+def mann_whitney_case(ctx, use_model=True):
     """unweighted, everything reduced, thresholds = {0} + distinct forecasts + a value above the maximum"""
     rng = ctx.rng
     n = rng.randint(2, 12)
     den = rng.choice([2, 4, 8])
     f = [Fraction(rng.randint(0, den), den) for _ in range(n)]
+    if rng.random() < 0.5:       # near-ties: distinct values closer than any sensible tolerance, and non-dyadic ones
+        for k in range(n):
+            r = rng.random()
+            if r < 0.25 and f[k] > 0:
+                f[k] = Fraction(float(f[k]) - rng.choice([3e-9, 1e-10, 5e-9]))
+            elif r < 0.35:
+                f[k] = Fraction(rng.choice([0.7 - 0.4, 0.1 + 0.2, 0.3]))
+        ctx.count("mann_whitney:near_ties")
     o = [rng.randint(0, 1) for _ in range(n)]
     fa = np.array([float(x) for x in f])
     oa = np.array(o, dtype=float)
@@ -211,36 +282,58 @@ def mann_whitney_case(ctx):
         return
     if not core.close(a, u):
         ctx.violation("AUC differs from the Mann-Whitney probability (ties one half)", desc, u, a)
+    if not use_model:
+        return
     mu = core.dec_num(ctx.model("c14_mann_whitney", enc_list([enc_nums(ev), enc_nums(ne)])))
     if mu != u:
         ctx.tie_fail("model's Mann-Whitney statistic vs the harness oracle", desc, u, mu)
 
 
-def run(ctx):
+def body(ctx, use_model):
     for i in range(ctx.n(220, 2500)):
         if not ctx.time_left():
             break
         fcst, obs, ts, rd, pd, w, ca, bad = gen_case(ctx)
         impl = call(fcst, obs, ts, rd, pd, w, ca)
-        m = ctx.model("c14_roc_curve_data", enc_list([enc_arr(fcst), enc_arr(obs), enc_nums(ts), enc_dimspec(rd), enc_dimspec(pd),
-                                                       enc_opt(w, enc_arr), enc_bool(ca)]))
-        desc = {"fn": "roc_curve_data", "fcst": gens.da_repr(fcst), "obs": gens.da_repr(obs), "thresholds": ts, "reduce_dims": rd,
-                "preserve_dims": pd, "weights": gens.da_repr(w), "check_args": ca}
-        ok, why = core.compare_dataset(impl, m, ["POD", "POFD", "AUC"])
+        desc = {"fn": "roc_curve_data", "fcst": gens.da_repr(fcst), "fcst_dtype": str(fcst.dtype), "obs": gens.da_repr(obs), "thresholds": ts,
+                "reduce_dims": rd, "preserve_dims": pd, "weights": gens.da_repr(w), "check_args": ca}
         nontrivial = impl[0] == "ok" and bool(np.isfinite(np.asarray(impl[1]["POD"])).any() or np.isfinite(np.asarray(impl[1]["POFD"])).any())
         ctx.case(desc, nontrivial)
         ctx.count(("ok" if impl[0] == "ok" else impl[1]) + (":malformed=" + bad if bad else ""))
+        ctx.count("fcst_dtype:" + str(fcst.dtype))
+        if set(obs.dims) - set(fcst.dims):
+            ctx.count("obs_only_dim")
         if i < 2:
             ctx.sample(desc)
-        if not ok:
-            ctx.tie_fail("roc_curve_data vs model: " + why, desc, str(impl[1])[:300], str(m)[:300])
+        if use_model:
+            m = ctx.model("c14_roc_curve_data", enc_list([enc_arr(fcst), enc_arr(obs), enc_nums(ts), enc_dimspec(rd), enc_dimspec(pd),
+                                                           enc_opt(w, enc_arr), enc_bool(ca)]))
+            ok, why = core.compare_dataset(impl, m, ["POD", "POFD", "AUC"])
+            if not ok:
+                ctx.tie_fail("roc_curve_data vs model: " + why, desc, str(impl[1])[:300], str(m)[:300])
+        # a request naming only existing dimensions, one of reduce / preserve: the result must keep exactly what was asked for
+        all_dims = set(fcst.dims) | set(obs.dims)
+        named = set() if (rd in (None, "all") and pd in (None, "all")) else set([rd] if isinstance(rd, str) else (rd or [])) | set([pd] if isinstance(pd, str) else (pd or []))
+        named -= {"all"}
+        valid_request = bad is None and not (rd is not None and pd is not None) and named <= all_dims
+        if valid_request and impl[0] != "ok" and (w is None or set(w.dims) <= all_dims):
+            ctx.violation("roc_curve_data raises on a valid request", desc, "dataset", impl[1])
         if impl[0] == "ok":
             ties = int(np.isin(np.asarray(fcst.values, float), ts).sum())
             ctx.count("has_fcst_eq_threshold_tie" if ties else "no_tie")
-            predicates(ctx, fcst, obs, ts, w, impl[1], desc)
+            predicates(ctx, fcst, obs, ts, w, impl[1], desc, use_model, rd, pd, valid_request)
             if w is None and bad is None:
                 manager_agreement(ctx, fcst, obs, ts, rd, pd, impl[1], desc)
     for _ in range(ctx.n(150, 2000)):
         if not ctx.time_left():
             break
-        mann_whitney_case(ctx)
+        mann_whitney_case(ctx, use_model)
+
+
+def run(ctx):
+    body(ctx, model_ok(ctx))
+
+
+def run_without_model(ctx):
+    """implementation against the exact oracles (weighted fractions, Mann-Whitney statistic, trapezoid of the returned points) and the manager"""
+    body(ctx, False)
